@@ -63,15 +63,15 @@ class Sched(object):
 
     # ---- called from library / harness threads
     def me(self):
-        ident = threading.get_ident()
+        me = threading.current_thread()     # (thread idents are reused once a thread has ended: compare objects)
         for t in self.threads:
-            if t.thread is not None and t.thread.ident == ident:
+            if t.thread is me:
                 return t
         raise HarnessError('scheduling point reached from a thread the scheduler does not own')
 
     def owns_current_thread(self):
-        ident = threading.get_ident()
-        return any(t.thread is not None and t.thread.ident == ident for t in self.threads)
+        me = threading.current_thread()
+        return any(t.thread is me for t in self.threads)
 
     def point(self, label, cond=None, deadline=None):
         """Yield to the scheduler.  cond=None: stay runnable.  Otherwise block until cond() or the (virtual) deadline.
